@@ -115,7 +115,7 @@ func c14Probe(p *run.Part, cfg *seqx.Config, seen *sync.Map) func(w *seqx.World,
 					continue
 				}
 				t := 3 - d - s
-				key := cfg.Name + fmt.Sprint(w.ML[d].UIDs(), w.ML[s].UIDs(), w.ML[t].UIDs(), d, s)
+				key := cfg.Name + fmt.Sprint(hashesOf(w.Logs[d].Heads().Slice()), hashesOf(w.Logs[s].Heads().Slice()), hashesOf(w.Logs[t].Heads().Slice()), d, s)
 				if _, dup := seen.LoadOrStore(key, true); dup {
 					continue
 				}
